@@ -5,6 +5,22 @@
 // module; `analyse_state` is what the CLI runs for every shape/potential combination.
 #[allow(dead_code, unused_imports)]
 mod cli {
+    // `std::sync` and `std::thread` as seen by main.rs are the simulator's: a lock, channel, atomic
+    // or thread that the pipeline starts to use becomes a scheduling point of the controlled
+    // scheduler instead of a real primitive the simulated threads could block on for ever.
+    // Everything else in `std` is the real thing.  (If main.rs uses a std::sync item shuttle does
+    // not model, this fails to build: exit 2, never a verdict.)
+    #[allow(unused_imports)]
+    mod std {
+        pub use ::std::*;
+        pub mod sync {
+            pub use ::std::sync::*;
+            pub use shuttle::sync::{atomic, mpsc, Barrier, BarrierWaitResult, Condvar, Mutex, MutexGuard, Once, OnceState, RwLock, RwLockReadGuard, RwLockWriteGuard, WaitTimeoutResult};
+        }
+        pub mod thread {
+            pub use shuttle::thread::*;
+        }
+    }
     include!(concat!(env!("CARGO_MANIFEST_DIR"), "/../repo-link/src/main.rs"));
 
     pub fn run<S: State>(out: std::path::PathBuf, replicas: u64, state: S, opt: &BuildOptimiser) -> Result<(), Error> {
